@@ -168,7 +168,7 @@ _p('C01', 'Attack-graph edges are exactly the MAL meaning of the step expression
             ('R14', '_process_step_expression'), ('R19', '_process_step_expression')], floor=30)
 
 _p('C02', 'One node per asset x step, with attributes faithful to model and language',
-   ['R3', 'R4', 'R12', 'R8', 'R17', 'R20', 'R19', 'R14', 'R6', 'R10', 'R22', 'R25'],
+   ['R3', 'R4', 'R12', 'R8', 'R17', 'R20', 'R19', 'R14', 'R6', 'R10', 'R22', 'R18', 'R25'],
    decided=['R3: every node entering the node list is registered in both lookup indexes and '
             'advances the id counter (and symmetrically on removal)',
             'R4: add_node honours an explicit id by an is-None test, its duplicate test checks the '
